@@ -78,6 +78,41 @@ def mutations():
     def _(d): F_(T_(d, "B"), "link")["params"][0] = param("min", "Int!", I(0))
     @m("param_type_changed_base")
     def _(d): F_(T_(d, "B"), "link")["params"][1] = param("tag", "Int")
+    # list depth and inner list levels of inherited properties and parameters
+    def add_everywhere(d, f):
+        for tn in ("Base", "Mid", "A", "B"): T_(d, tn)["fields"].append(copy.deepcopy(f))
+    @m("inherited_property_list_depth_changed")
+    def _(d): F_(T_(d, "B"), "name")["ty"] = ty("[String]")
+    @m("inherited_property_scalar_for_list")
+    def _(d): add_everywhere(d, field("tags", "[Int]")); F_(T_(d, "A"), "tags")["ty"] = ty("Int")
+    @m("narrow_inner_list_level_ok")
+    def _(d): add_everywhere(d, field("tags", "[Int]")); F_(T_(d, "A"), "tags")["ty"] = ty("[Int!]!"); F_(T_(d, "Mid"), "tags")["ty"] = ty("[Int]!")
+    @m("widen_inner_list_level")
+    def _(d): add_everywhere(d, field("tags", "[Int!]")); F_(T_(d, "B"), "tags")["ty"] = ty("[Int]")
+    @m("widen_outer_keep_inner")
+    def _(d): add_everywhere(d, field("tags", "[Int!]!")); F_(T_(d, "A"), "tags")["ty"] = ty("[Int!]")
+    @m("inherited_param_list_depth_changed")
+    def _(d): F_(T_(d, "B"), "link")["params"][0] = param("min", "[Int]")
+    @m("inherited_param_inner_level_narrowed")
+    def _(d):
+        for tn in ("Base", "Mid", "A", "B"): F_(T_(d, tn), "link")["params"].append(param("ks", "[Int]"))
+        F_(T_(d, "A"), "link")["params"][-1] = param("ks", "[Int!]")
+    @m("inherited_param_inner_level_widened_ok")
+    def _(d):
+        for tn in ("Base", "Mid", "A", "B"): F_(T_(d, tn), "link")["params"].append(param("ks", "[Int!]!", L([I(1)])))
+        F_(T_(d, "A"), "link")["params"][-1] = param("ks", "[Int]", L([I(1)]))
+    @m("three_level_interface_chain_ok")
+    def _(d):
+        low = vtype("Low", "interface", ["Mid", "Base"], copy.deepcopy(T_(d, "Mid")["fields"]) + [field("low", "Int")])
+        d["types"].append(low); d["types"].append(vtype("Leaf", "type", ["Low", "Mid", "Base"], copy.deepcopy(low["fields"])))
+    @m("three_level_chain_missing_top")
+    def _(d):
+        low = vtype("Low", "interface", ["Mid", "Base"], copy.deepcopy(T_(d, "Mid")["fields"]) + [field("low", "Int")])
+        d["types"].append(low); d["types"].append(vtype("Leaf", "type", ["Low", "Mid"], copy.deepcopy(low["fields"])))
+    @m("three_level_chain_missing_middle_field")
+    def _(d):
+        low = vtype("Low", "interface", ["Mid", "Base"], copy.deepcopy(T_(d, "Mid")["fields"]) + [field("low", "Int")])
+        d["types"].append(low); d["types"].append(vtype("Leaf", "type", ["Low", "Mid", "Base"], [f for f in copy.deepcopy(low["fields"]) if f["name"] != "m"]))
     @m("unknown_field_type")
     def _(d): T_(d, "B")["fields"].append(field("ghost", "Ghost"))
     @m("custom_scalar_property")
